@@ -139,6 +139,17 @@ SEEDS = {
  "C21-m6": ("C21", "a source file longer than 8192 bytes (line assembled across a buffer refill is never cleared: later rules duplicated or lost)", ["C21"]),
  "C22-m5": ("C22", "a query of arity >= 8 (or nested 3 deep at arity 3) constructed before another query and run after it (8-entry work list in max_var_id underestimates the ids in use)", ["C22"]),
  "C22-m6": ("C22", "about 65 536 query epochs in one process, i.e. 22 000 to 65 535 earlier queries (epoch and stop request packed into 16 bits each)", ["C22"]),
+ "C04-m5": ("C04", "print_list of a list whose bound tail brings in >= 5 further elements (loop bounded by the node count of the outer list plus the set length: output silently cut)", ["C04"]),
+ "C04-m6": ("C04", "a print goal with a marker and >= 4 arguments, i.e. two or more values beyond the markers (only one trailing value kept)", ["C04"]),
+ "C09-m5": ("C09", "a complex term with >= 5 arguments facing $_ and a fresh variable of the other term at the 5th or a later one (4-slot array of $_ positions filled through zip)", ["C09", "C06"]),
+ "C11-m5": ("C11", "two variables of one clause whose names share their first 8 bytes (names packed into a u64 key)", ["C11"]),
+ "C11-m6": ("C11", "a name recreated exactly 256 clause fetches after its last use (shared variable table with a u8 generation stamp)", ["C11", "C01"]),
+ "C12-m5": ("C12", "an integer outside the i32 range in arithmetic that also has a float argument (narrowed to 32 bits on promotion)", ["C12"]),
+ "C12-m6": ("C12", "an integer literal above 2^53 in source text (literals parsed through f64)", ["C12", "C20"]),
+ "C13-m5": ("C13", "join(...) whose text is >= 65 bytes unified with the atom it denotes, either side (64-byte stack buffer, overflow ignored)", ["C13"]),
+ "C14-m5": ("C14", "two atoms of >= 8 bytes differing in two places inside one 8-byte word (word-wise comparison with native-endian loads)", ["C14"]),
+ "C14-m6": ("C14", "a comparison operand >= 256 bindings away from its value (u8 hop counter in get_ground_term)", ["C14", "C08"]),
+ "C23-m5": ("C23", "about 65 536 query epochs in one process: the ~32 768th solve_all or ~22 000th parsed-and-solved query reports a timeout or no answers although the search took microseconds (16-bit epoch field wraps onto the stop field)", ["C23", "C22"]),
 }
 
 def sh(cmd, cwd=None, env=None, timeout=None):
